@@ -140,6 +140,11 @@ def bytag_judge(ik, mk):
     if bad:
         return [('impl≠spec', {'what': 'get_by_tag differs from the named accessor', 'members': bad[:5],
                                'case': {'what': 'by-tag', 'status': ik.get('rast')}})]
+    badc = [r for r in ik.get('cur', '').split(';') if r.startswith('BYTAG-CURSOR-MISMATCH')]
+    if badc:
+        return [('impl≠spec', {'what': 'get_by_tag(view, cursor) differs from the named cursor accessor (value, address '
+                               'or the position it leaves the cursor at)', 'members': badc[:5],
+                               'case': {'what': 'by-tag-cursor', 'status': ik.get('curst')}})]
     return []
 
 
